@@ -12,22 +12,24 @@ Atoms ==
   { [t |-> "bool", v |-> TRUE], [t |-> "bool", v |-> FALSE], [t |-> "null"] } \cup
   { [t |-> "bytes", b |-> x] : x \in { <<>>, <<97>>, <<49, 58>>, <<44>>, <<49, 50, 58, 97, 44>>, <<35, 93>>, <<48, 58, 126>>, <<0, 255>>,
                                    <<10>>, <<97, 10, 98>> } } \cup              \* (payloads containing the separator a reader may be told to ignore)
-  { [t |-> "text", u |-> x] : x \in { <<>>, <<97>>, <<207, 128>>, <<97, 226, 130, 172>>, <<36, 44>> } }
+  { [t |-> "text", cp |-> x] : x \in { <<>>, <<97>>, <<960>>, <<97, 8364>>, <<36, 44>>, <<233>>, <<99, 97, 102, 233, 255>> } }       \* pi, euro, e acute, y diaeresis
 Keys == { <<107>>, <<97, 49>> }
 Lists(S) == { [t |-> "list", xs |-> <<>>] } \cup { [t |-> "list", xs |-> <<a>>] : a \in S } \cup { [t |-> "list", xs |-> <<a, b>>] : a \in S, b \in S }
 Dicts(S) == { [t |-> "dict", kv |-> <<>>] } \cup { [t |-> "dict", kv |-> << <<k, a>> >>] : k \in Keys, a \in S }
             \cup { [t |-> "dict", kv |-> << << <<107>>, a >>, << <<97, 49>>, b >> >>] : a \in S, b \in S }
 SmallAtoms == { a \in Atoms : a.t \in {"null", "bool"} \/ (a.t = "int" /\ Len(a.digits) = 1) \/ (a.t = "bytes" /\ a.b \in {<<>>, <<49, 58>>, <<44>>})
-                              \/ (a.t = "text" /\ a.u = <<207, 128>>) \/ (a.t = "float" /\ a.txt = <<49, 46, 53>>) }
+                              \/ (a.t = "text" /\ a.cp \in {<<960>>, <<233>>}) \/ (a.t = "float" /\ a.txt = <<49, 46, 53>>) }
 L1 == Lists(Atoms) \cup Dicts(Atoms)
 L1small == Lists(SmallAtoms) \cup Dicts(SmallAtoms)
 L2 == Lists({ x \in L1small : Len(Dump(x)) <= 12 }) \cup Dicts({ x \in L1small : Len(Dump(x)) <= 12 })
 Values == Atoms \cup L1 \cup (IF Deep THEN L2 ELSE { x \in L2 : (x.t = "list" /\ Len(x.xs) <= 1) \/ (x.t = "dict" /\ Len(x.kv) <= 1) })
 Tails == { <<>>, <<48, 58, 126>>, <<57>>, <<58>>, <<49, 58, 97, 44>> }
 
-Emit(v) == /\ RoundTrip(v) /\ \A tl \in Tails : RoundTripTail(v, tl)
-           /\ PrintT(ToJson([k |-> "tnet", v |-> v, b |-> Dump(v)]))
-ASSUME \A v \in Values : Emit(v)
+\* every value in the default encoding; every value containing text also in Latin-1, if it can be written in it
+Encs(v) == {"utf-8"} \cup (IF HasText(v) /\ EncodableV("latin-1", v) THEN {"latin-1"} ELSE {})
+Emit(v, enc) == /\ RoundTrip(v, enc) /\ \A tl \in Tails : RoundTripTail(v, enc, tl)
+                /\ PrintT(ToJson([k |-> "tnet", v |-> v, enc |-> enc, b |-> DumpE(v, enc)]))
+ASSUME \A v \in Values : \A enc \in Encs(v) : Emit(v, enc)
 ASSUME PrintT(ToJson([k |-> "tails", tails |-> Tails]))
 VARIABLE dummy
 TInit == dummy = 0
